@@ -2409,13 +2409,12 @@ def _min_evals():
         m['runavg==mean-of-original-window'] = run // 2
         m['runavg.length+dt-preserved'] = run // 2
         m['history.call==same-call-on-fresh-object'] = cnt['history'] * nsh * 2
-        m['history.deepcopy-source-unchanged'] = cnt['history'] * nsh // 8
-        m['history.pickle-source-unchanged'] = cnt['history'] * nsh // 8
-        m['history.copy-source-unchanged'] = cnt['history'] * nsh // 8
-        m['history.deepcopy-equals-source'] = cnt['history'] * nsh // 8
-        m['history.pickle-equals-source'] = cnt['history'] * nsh // 8
-        m['history.attribute-assignment-all-or-nothing'] = cnt['history'] * nsh // 4
-        m['history.refused-call-leaves-object-unchanged'] = cnt['history'] * nsh // 3
+        for how in FORK_OPS:
+            m['history.%s-source-unchanged' % how] = cnt['history'] * nsh // 6
+        m['history.deepcopy-equals-source'] = cnt['history'] * nsh // 6
+        m['history.pickle-equals-source'] = cnt['history'] * nsh // 6
+        m['history.attribute-assignment-all-or-nothing'] = cnt['history'] * nsh * 3 // 8
+        m['history.refused-call-leaves-object-unchanged'] = cnt['history'] * nsh // 2
         for o in STATE_OPS:
             m['state.first-result-unchanged-after-second-call.%s' % o] = st // (2 * len(STATE_OPS))
             m['state.third-call==first-call.%s' % o] = st // (2 * len(STATE_OPS))
